@@ -59,7 +59,7 @@ LINES = [b"1;0;1;0;2;1", b"", b"0;255;3;0;9;log", "12;6;1;0;47;ünï".encode(), 
 
 
 def budget(tier):
-    return 10000 if tier == "quick" else 150_000
+    return 10000 if tier == "quick" else 1_200_000
 
 
 def wall(tier):
